@@ -22,13 +22,6 @@ EnText(l, y, m, d) ==
     [] l = 10 -> ToString(y) \o "-" \o ToString(m) \o "-" \o ToString(d)
 
 (* ---- other cultures: month names and the day-month-year layouts *)
-MonthName(cul) ==
-  CASE cul = "fr-fr" -> <<"janvier", "f{e9}vrier", "mars", "avril", "mai", "juin", "juillet", "ao{fb}t", "septembre", "octobre", "novembre", "d{e9}cembre">>
-    [] cul \in {"es-es", "es-mx"} -> <<"enero", "febrero", "marzo", "abril", "mayo", "junio", "julio", "agosto", "septiembre", "octubre", "noviembre", "diciembre">>
-    [] cul = "pt-br" -> <<"janeiro", "fevereiro", "mar{e7}o", "abril", "maio", "junho", "julho", "agosto", "setembro", "outubro", "novembro", "dezembro">>
-    [] cul = "de-de" -> <<"Januar", "Februar", "M{e4}rz", "April", "Mai", "Juni", "Juli", "August", "September", "Oktober", "November", "Dezember">>
-    [] cul = "it-it" -> <<"gennaio", "febbraio", "marzo", "aprile", "maggio", "giugno", "luglio", "agosto", "settembre", "ottobre", "novembre", "dicembre">>
-    [] cul = "nl-nl" -> <<"januari", "februari", "maart", "april", "mei", "juni", "juli", "augustus", "september", "oktober", "november", "december">>
 (* layouts: 1 ISO; 2 dd/mm/yyyy; 3 dd-mm-yyyy; 4 d <month name> yyyy in the culture's idiom; 5 the same with the
    culture's ordinal mark on the day (1{ba} de mayo de 1999, 1er mai 1999, 2e mai 1999, 1e mei 1999, 1{b0} maggio 1999;
    German writes the ordinal point in layout 4 already); 6 d/m/yyyy and 7 d-m-yyyy without padding *)
